@@ -17,6 +17,10 @@ import (
 
 	"github.com/go-logr/logr"
 	"github.com/pckhoi/meow"
+	"net/http"
+
+	apiclient "github.com/wrgl/wrgl/pkg/api/client"
+	"github.com/wrgl/wrgl/pkg/api/payload"
 	"github.com/wrgl/wrgl/pkg/api/utils"
 	"github.com/wrgl/wrgl/pkg/encoding"
 	"github.com/wrgl/wrgl/pkg/encoding/packfile"
@@ -35,10 +39,40 @@ func init() {
 // ---- canonical decoding of each kind ----------------------------------------------------------
 
 // decodeKind decodes bytes from r as `kind` and returns a canonical JSON-able value.
+// bodyTransport answers every request with one packfile response whose body is the reader under test
+type bodyTransport struct{ body io.Reader }
+
+func (t *bodyTransport) RoundTrip(req *http.Request) (*http.Response, error) {
+	if req.Body != nil {
+		io.Copy(io.Discard, req.Body)
+		req.Body.Close()
+	}
+	h := http.Header{}
+	h.Set("Content-Type", apiclient.CTPackfile)
+	return &http.Response{StatusCode: 200, Status: "200 OK", Proto: "HTTP/1.1", ProtoMajor: 1, ProtoMinor: 1,
+		Header: h, Body: io.NopCloser(t.body), ContentLength: -1, Request: req}, nil
+}
+
 func decodeKind(kind string, r io.Reader) (interface{}, error) {
 	switch kind {
-	case "packfile":
-		pr, err := packfile.NewPackfileReader(io.NopCloser(r))
+	case "packfile", "packfile-via-client":
+		var pr *packfile.PackfileReader
+		var err error
+		if kind == "packfile-via-client" {
+			// the same bytes as the body of an upload-pack response, read the way fetch reads it:
+			// apiclient.Client.PostUploadPack decides what the body is and hands back the packfile reader
+			var c *apiclient.Client
+			c, err = apiclient.NewClient("http://remote.invalid", logr.Discard(), apiclient.WithTransport(&bodyTransport{body: r}))
+			if err != nil {
+				return nil, err
+			}
+			_, pr, err = c.PostUploadPack(&payload.UploadPackRequest{})
+			if err == nil && pr == nil {
+				err = fmt.Errorf("no packfile reader")
+			}
+		} else {
+			pr, err = packfile.NewPackfileReader(io.NopCloser(r))
+		}
 		if err != nil {
 			return nil, err
 		}
